@@ -38,6 +38,11 @@ Proof.
   intros. destruct (shut_cases _ _ _ _ _ H) as [[-> _]|[x [Ex [_ [-> _]]]]]; auto.
   unfold ck; simpl. unfold upd. destruct (Nat.eqb_spec c' c); subst; auto. rewrite Ex. reflexivity.
 Qed.
+Lemma ck_close_if_empty : forall s c s' evs, close_if_empty s c = (s', evs) -> forall c', ck s' c' = ck s c'.
+Proof.
+  intros. destruct (close_if_empty_cases _ _ _ _ H) as [(-> & _)|(x & _ & _ & _ & _ & _ & Hs)]; auto.
+  eapply ck_shut; eauto.
+Qed.
 Lemma ck_remove_sub : forall s c w s' b, remove_sub s c w = Some (s', b) -> forall c', ck s' c' = ck s c'.
 Proof.
   intros. destruct (remove_sub_cases _ _ _ _ _ H) as [x [Ex [-> _]]].
@@ -55,12 +60,13 @@ Proof.
     try reflexivity;
     repeat match goal with
            | Hs : shut _ _ _ = (_, _) |- _ => rewrite <- (ck_shut _ _ _ _ _ Hs c'); clear Hs
+           | Hs : close_if_empty _ _ = (_, _) |- _ => rewrite <- (ck_close_if_empty _ _ _ _ Hs c'); clear Hs
            | Hr : remove_sub _ _ _ = Some (_, _) |- _ => rewrite <- (ck_remove_sub _ _ _ _ _ Hr c'); clear Hr
            end;
     try reflexivity;
     try (unfold ck; simpl; unfold upd; destruct (Nat.eqb_spec c' c); subst; auto;
          match goal with Hc : cns _ ?c = Some _ |- _ => rewrite Hc end; simpl; try rewrite removed_key; reflexivity).
-  rewrite (ck_shut _ _ _ _ _ Heqp c'). apply (ck_set_cn _ _ _ _ Heqo). reflexivity.
+  rewrite (ck_close_if_empty _ _ _ _ H1 c'). apply (ck_set_cn _ _ _ _ Heqo). reflexivity.
 Qed.
 
 Arguments ck : simpl never.
@@ -68,6 +74,12 @@ Arguments ck : simpl never.
 Lemma shut_frame2 : forall s c cz s' evs, shut s c cz = (s', evs) ->
   conns s' = conns s /\ dialing s' = dialing s /\ dials s' = dials s /\ okey s' = okey s.
 Proof. intros. destruct (shut_cases _ _ _ _ _ H) as [[-> _]|[x [_ [_ [-> _]]]]]; simpl; auto. Qed.
+Lemma close_if_empty_frame2 : forall s c s' evs, close_if_empty s c = (s', evs) ->
+  conns s' = conns s /\ dialing s' = dialing s /\ dials s' = dials s /\ okey s' = okey s.
+Proof.
+  intros. destruct (close_if_empty_cases _ _ _ _ H) as [(-> & _)|(x & _ & _ & _ & _ & _ & Hs)]; auto.
+  eapply shut_frame2; eauto.
+Qed.
 Lemma remove_sub_frame2 : forall s c w s' b, remove_sub s c w = Some (s', b) ->
   conns s' = conns s /\ dialing s' = dialing s /\ dials s' = dials s /\ okey s' = okey s.
 Proof. intros. destruct (remove_sub_cases _ _ _ _ _ H) as [x [_ [-> _]]]; simpl; auto. Qed.
@@ -87,6 +99,9 @@ Ltac frames :=
          | Hr : remove_sub ?s _ _ = Some (?s1, _) |- _ =>
            destruct (remove_sub_frame _ _ _ _ _ Hr) as (?Ep & ?Ec & ?Es & ?Ew & ?En);
            destruct (remove_sub_frame2 _ _ _ _ _ Hr) as (?Eco & ?Edi & ?Eds & ?Eok); clear Hr
+         | Hs : close_if_empty ?s _ = (?s1, _) |- _ =>
+           destruct (close_if_empty_frame _ _ _ _ Hs) as (?Ep & ?Ec & ?Es & ?Ew & ?En);
+           destruct (close_if_empty_frame2 _ _ _ _ Hs) as (?Eco & ?Edi & ?Eds & ?Eok); clear Hs
          end.
 Ltac dd HD :=
   pose proof (D1 _ HD) as Hd1; pose proof (D2 _ HD) as Hd2; pose proof (D3 _ HD) as Hd3;
@@ -160,7 +175,7 @@ Proof.
   - (* UpAck *) destruct a; try discriminate. clear Ea. inv_step H.
     assert (Hck : forall c, ck (set_pc (set_cn (set_dial s d (d_set d0 DReturned None)) d
                  {| c_key := d_key d0; c_subs := []; c_closed := false; c_dead := None; c_timers := 0;
-                    c_tclose := 0; c_rl := RLRun; c_rm := false |}) (d_owner d0) (SPublish d None)) c
+                    c_rl := RLRun; c_rm := false |}) (d_owner d0) (SBook d None)) c
                = if Nat.eqb c d then Some (d_key d0) else ck s c).
     { intros c. unfold ck; simpl. unfold upd. destruct (Nat.eqb_spec c d); reflexivity. }
     fwd_dials HD; fwd_imp; dd HD.
@@ -199,4 +214,5 @@ Proof.
                | _ => let G := fresh "G" in pose proof (D4 _ HD j d) as G; rewrite H in G; simpl in G; specialize (G eq_refl)
                end
              end; spec_refl; fwd_same; fin2.
+    all: try (match goal with E : d_publish _ _ _ = ?y, N : d_phase ?y <> DReturned |- _ => rewrite <- E in N; simpl in N; congruence end).
 Qed.
